@@ -28,7 +28,7 @@ EXHAUSTIVE = {"flag": True, "scope": "all shapes 0..3 x 0..3 for every directed 
 ANCHOR_FUNCS = ["table:Table.__init__", "table:Table.__rshift__", "table:Table.__lshift__", "table:Table.T", "table:Table.__getitem__", "table:Table.__iter__"]
 REQUIRED_STRATA = {"recompute": 200, "structural": 200, "steps": 2000}
 
-OPS = ["gather-big", "sort-repeated-labels", ">>own-column-then-write", "rowslice-2d", "<<table-zero-rows", "<<row-bytearray", ">>nothing", ">>vector", ">>vector-wrong", ">>list", ">>dict", ">>dict-wrong", ">>table", ">>table-wrong", "<<row", "<<row-short", "<<row-long", "<<table", "<<row-widen", ">>dict-own-column",
+OPS = ["row-write-own-column", "row-held-across-writes", "colselect-2d-then-write", "write-bad-column-position", "gather-big", "sort-repeated-labels", ">>own-column-then-write", "rowslice-2d", "<<table-zero-rows", "<<row-bytearray", ">>nothing", ">>vector", ">>vector-wrong", ">>list", ">>dict", ">>dict-wrong", ">>table", ">>table-wrong", "<<row", "<<row-short", "<<row-long", "<<table", "<<row-widen", ">>dict-own-column",
 	"rowslice", "rowmask", "T.T", "attr", "attr-wrong", "ragged-ctor", "attr-iterable", "setitem-table", "<<table-dupnames", ">>table-dupnames", "vector>>"]
 
 
@@ -244,6 +244,98 @@ def run_structural(chk, spec):
 		exp[j][0] = newv
 		if any(not M.eq_list(g, e) for g, e in zip(after_r, exp)):
 			chk.fail("a cell write changes that cell only (columns built from one vector are separate columns)", f"structural/{op}/other-cells-changed", f"{spec!r}: {short(before_r, 160)} -> {short(after_r, 160)}, expected {short(exp, 160)}")
+		return
+	elif op == "row-write-own-column":
+		# t[i, cols] = (one of the table's own columns): the row takes the values that column held when the statement started
+		if c == 0 or r == 0:
+			chk.skip("structural-no-cells")
+			return
+		i, srcj = spec["key"][0] % r, spec["key"][1] % c
+		k = min(r, c)
+		targets = list(range(c))[:k] if spec["key"][2] == 0 else list(range(c))[::-1][:k]
+		src = [t.cols()[srcj], t[names[srcj]], t.cols()[srcj][0:r]][spec["key"][2] % 3]
+		vals = list(cols[srcj])[:k]
+		if len(src) != len(targets):
+			src = src[0:k]
+		exp = [list(x) for x in cols]
+		for jj, x in zip(targets, vals):
+			exp[jj][i] = x
+		o = call(lambda: t.__setitem__((i, targets), src))
+		if fail_rect(chk, t, op, spec):
+			return
+		if not o.ok:
+			if tcells(t) != [list(x) for x in cols] and False:
+				pass
+			chk.skip("structural-row-write-own-column-refused")
+			return
+		got = tcells(t)
+		if any(not M.eq_list(g, e) for g, e in zip(got, exp)):
+			chk.fail("a row write stores the given values in the addressed cells (the values of the statement's start, also when they come from the table itself)", f"structural/{op}/wrong-cells", f"{spec!r}: row {i} <- column {srcj}: {short(got, 160)} vs model {short(exp, 160)}")
+		return
+	elif op == "row-held-across-writes":
+		# r = t[i] without reading it; write the table; read r; write again; read r.  A row is either a snapshot (both reads show the cells of the
+		# moment it was obtained) or a live view (each read shows the cells of that moment) - never the cells of its first READ frozen
+		if c == 0 or r == 0:
+			chk.skip("structural-no-cells")
+			return
+		i = spec["key"][0] % r
+		row = t[i]
+		old = [cols[j][i] for j in range(c)]
+		w1 = call(lambda: t.__setitem__((i, 0), t.cols()[0]._underlying[(i + 1) % r] if r > 1 and not M.same(cols[0][i], cols[0][(i + 1) % r]) else None))
+		mid = [col._underlying[i] for col in t.cols()]
+		a = call(lambda: [list(row), list(row[0:c]), [row[j] for j in range(c)]][spec["key"][1] % 3])
+		w2 = call(lambda: t.__setitem__((i, 0), old[0]))
+		w3 = call(lambda: t.__setitem__((i, c - 1), None))
+		end = [col._underlying[i] for col in t.cols()]
+		b = call(lambda: list(row))
+		if not (a.ok and b.ok):
+			chk.fail("the i-th row obtained by indexing equals the i-th values of the columns", f"structural/{op}/raises", f"{spec!r}: reading the kept row raised {a!r} / {b!r}")
+			return
+		snap_ok = M.same_list(a.value, old) and M.same_list(b.value, old)
+		live_ok = M.same_list(a.value, mid) and M.same_list(b.value, end)
+		if not (snap_ok or live_ok):
+			chk.fail("the i-th row obtained by indexing equals the i-th values of the columns", f"structural/{op}/neither-snapshot-nor-view", f"{spec!r}: row {i} obtained as {old!r}; after a write ({mid!r}) it reads {a.value!r}; after more writes ({end!r}) it reads {b.value!r}")
+		return
+	elif op == "colselect-2d-then-write":
+		# t[:, j] / t[:, name] / t[name, :] is a new object that preserves cells: a write (or rename) through it leaves the table's cells and names alone
+		if c == 0 or r == 0:
+			chk.skip("structural-no-cells")
+			return
+		j = spec["key"][0] % c
+		key = [(slice(None), j), (slice(None), names[j]), (names[j], slice(None)), (slice(0, r), j), (slice(None), slice(j, j + 1))][spec["key"][1] % 5]
+		o = call(lambda: t[key])
+		if not o.ok:
+			chk.fail("row slices and masks apply uniformly to all columns", f"structural/{op}/raises/{type(o.exc).__name__}", f"{spec!r} t[{key!r}] raised {o!r}")
+			return
+		sel = o.value
+		got = list(sel.cols()[0]._underlying) if isinstance(sel, Table) else list(sel._underlying)
+		if not M.eq_list(got, list(cols[j])):
+			chk.fail("selections preserve cells", f"structural/{op}/wrong-cells", f"{spec!r}: t[{key!r}] = {short(got, 120)} vs column {short(cols[j], 120)}")
+			return
+		target = sel.cols()[0] if isinstance(sel, Table) else sel
+		call(lambda: target.__setitem__(0, None))
+		call(lambda: setattr(target, "name", "renamed_selection"))
+		if M.snap_table(t) != before:
+			chk.fail("a selection is a new object: writing or renaming it leaves the table as it was", f"structural/{op}/table-changed", f"{spec!r}: after writing into t[{key!r}]: {short(M.snap_table(t), 200)} vs {short(before, 200)}")
+		return
+	elif op == "write-bad-column-position":
+		# a write addressing a column position the table does not have is rejected and changes nothing (-c-1 ... -2c wrap around twice)
+		if c == 0 or r == 0:
+			chk.skip("structural-no-cells")
+			return
+		bad = [-c - 1, -2 * c, c, c + 3, -c - 2][spec["key"][0] % 5]
+		form = spec["key"][1] % 4
+		key = [(0, bad), (slice(None), bad), (0, [0, bad]), (slice(None), (bad,))][form]
+		val = [0, 0, [0, 0], 0][form]
+		o = call(lambda: t.__setitem__(key, val))
+		if fail_rect(chk, t, op, spec):
+			return
+		if o.ok or M.snap_table(t) != before:
+			cls = "accepted" if o.ok else "rejected-but-changed"
+			if form == 2 and not o.ok and tcells(t)[1:] == [list(x) for x in cols][1:]:
+				# (the valid first target of a two-target write may have been written before the bad one was met: per-column atomicity, see C08)
+				return
+			chk.fail("a write addressing a column the table does not have is rejected and changes nothing", f"structural/{op}/{cls}", f"{spec!r}: t[{key!r}] = {val!r} -> {o!r}; table {short(M.snap_table(t), 200)}")
 		return
 	elif op == "rowslice-2d":
 		# the two-axis spelling of a row slice: t[rows, :] and t[rows, column slice]
@@ -499,6 +591,14 @@ def run(chk):
 					variants = [(a, b) for a in range(4) for b in range(3)]
 				elif op == ">>own-column-then-write":
 					variants = [(0, 0), (1, 0), (2, 0)]
+				elif op == "row-write-own-column":
+					variants = [(i, j, f) for i in range(max(r, 1)) for j in range(max(c, 1)) for f in range(3)] if r and c else []
+				elif op == "row-held-across-writes":
+					variants = [(i, f, 0) for i in range(max(r, 1)) for f in range(3)] if r and c else []
+				elif op == "colselect-2d-then-write":
+					variants = [(j, f, 0) for j in range(max(c, 1)) for f in range(5)] if r and c else []
+				elif op == "write-bad-column-position":
+					variants = [(b, f, 0) for b in range(5) for f in range(4)] if r and c else []
 				elif op == "rowslice-2d":
 					variants = [(None, None, None), (1, None, None), (None, None, -1), (None, -1, None), (-1, None, -1), (5, None, -2), (2, 0, -1), (-9, 2, 2), (None, None, -2)]
 				elif op == "<<row-bytearray":
